@@ -10,7 +10,7 @@
    subq  = VL [VB topic; VL [VL [VB client; VB filter; VN data]...]; VL [same, shared]; VL [VL [VN id; VB filter; VN data]...]]
    msgq  = VL [VB filter; VL [VL [VB topic; VB payload]...]]
    (queries are made after the whole history) *)
-From MV Require Import Base.Val Topics.Levels Topics.Match Topics.Alist Topics.IndexSpec Topics.Trie.
+From MV Require Import Base.Val Topics.Levels Topics.Match Topics.Alist Topics.IndexSpec Topics.Trie Topics.Lin.
 Open Scope N_scope.
 
 Definition parse_op (v : val) : option op :=
@@ -96,9 +96,6 @@ Definition check_msgq_spec (a : astate) (q : bytes * list (bytes * bytes)) : boo
 Definition check_msgq_model (x : index) (q : bytes * list (bytes * bytes)) : bool :=
   mseqb beq_bb (snd q) (messages x (fst q)).
 
-(* filters for which C02 speaks: non-empty, wildcards only as whole levels, '#' last *)
-Definition msg_filter_ok (f : bytes) : bool := negb (nilb f) && levels_ok (split f).
-
 Definition queries_spec (a : astate) (sq : list subq) (mq : list (bytes * list (bytes * bytes))) : bool :=
   forallb (fun q => negb (valid_topicb (sq_topic q)) || check_subq_spec a q) sq &&
   forallb (fun q => negb (msg_filter_ok (fst q)) || check_msgq_spec a q) mq.
@@ -135,47 +132,40 @@ Definition seq_check (tg : bytes) (h : list (op * N)) (sq : list subq) (mq : lis
     if model_ok then verdict 0 (tg ++ tag "-nonwf") nt [] else verdict 2 (tg ++ tag "-nonwf") nt [].
 
 (* ---------- concurrent histories: search for a serialisation (C31) ---------- *)
-(* lin_search step final fuel st threads: is there an interleaving of the per-goroutine lists, respecting
+(* Lin.lin_check step reqb final st threads: is there an interleaving of the per-goroutine lists, respecting
    their order, in which every operation returns what was observed and [final] accepts the end state? *)
-Section Lin.
-  Context {S : Type} (step : S -> op -> S * N) (final : S -> bool).
-  (* all ways of taking the head of one thread: (op, ret, remaining threads) *)
-  Fixpoint picks (before after : list (list (op * N))) : list (op * N * list (list (op * N))) :=
-    match after with
-    | [] => []
-    | th :: rest =>
-        match th with
-        | [] => picks (before ++ [th]) rest
-        | e :: th' => (e, before ++ th' :: rest) :: picks (before ++ [th]) rest
-        end
-    end.
-  Fixpoint lin_search (fuel : nat) (st : S) (threads : list (list (op * N))) : bool :=
-    match fuel with
-    | O => false
-    | Datatypes.S fu =>
-        if forallb nilb threads then final st
-        else existsb (fun pk : op * N * list (list (op * N)) =>
-                        let '(o, r, ths) := pk in
-                        let (st', r') := step st o in
-                        (r =? r') && lin_search fu st' ths) (picks [] threads)
-    end.
-End Lin.
-Definition total_len (ths : list (list (op * N))) : nat := length (concat ths).
-Definition lin_check {S} (step : S -> op -> S * N) (final : S -> bool) (st : S) (ths : list (list (op * N))) : bool :=
-  lin_search step final (Datatypes.S (total_len ths)) st ths.
-
 Definition conc_check (ths : list (list (op * N))) (sq : list subq) (mq : list (bytes * list (bytes * bytes))) : val :=
   let nt := (1 <? length ths)%nat in
   let tg := tag "lin" in
-  let model_ok := lin_check t_step (fun x => queries_model x sq mq) ix_empty ths in
+  let model_ok := lin_check t_step N.eqb (fun x => queries_model x sq mq) ix_empty ths in
   if wf_opsb (map fst (concat ths)) then
-    if negb (lin_check a_step (fun a => queries_spec a sq mq) a_empty ths) then verdict 1 tg nt []
+    if negb (lin_check a_step N.eqb (fun a => queries_spec a sq mq) a_empty ths) then verdict 1 tg nt []
     else if model_ok then verdict 0 tg nt [] else verdict 2 tg nt []
   else if model_ok then verdict 0 (tg ++ tag "-nonwf") nt [] else verdict 2 (tg ++ tag "-nonwf") nt [].
+
+(* ---------- the atomicity assumption of C31_lin, read off the source (kind 5) ----------
+   h  = VL [ VL [VB method; VN first statement is x.root.Lock(); VN second is defer x.root.Unlock(); VN other Unlock calls] ... ]
+   sq = VL [ VB "function: what" ... ]   writes to the particle tree outside the root-locked mutators / set / trim *)
+Definition mutators : list bytes :=
+  [tag "InlineSubscribe"; tag "InlineUnsubscribe"; tag "Subscribe"; tag "Unsubscribe"; tag "RetainMessage"].
+Definition parse_lockrow (v : val) : option (bytes * (N * N * N)) :=
+  match v with VL [VB name; VN a; VN b; VN c] => Some (name, (a, b, c)) | _ => None end.
+Definition rootlock_check (h sq : list val) : val :=
+  match map_opt parse_lockrow h with
+  | None => bad_case
+  | Some rows =>
+      let ok_row name := match al_get beq_bytes name rows with
+                         | Some (a, b, c) => (a =? 1) && (b =? 1) && (c =? 0)
+                         | None => false
+                         end in
+      if forallb ok_row mutators && nilb sq then verdict 0 (tag "rootlock") true []
+      else verdict 1 (tag "rootlock") true []
+  end.
 
 (* ENGINE topics Topics.TopicsEngine.topics_engine *)
 Definition topics_engine (c : val) : val :=
   match c with
+  | VL [VN 5; VL h; VL sq; VL _] => rootlock_check h sq
   | VL [VN kind; VL h; VL sq; VL mq] =>
       match map_opt parse_subq sq, map_opt parse_msgq mq with
       | Some sq', Some mq' =>
